@@ -131,10 +131,17 @@ namespace nmtools::index
                 }
             };
 
+            // reduce the shift modulo the extent first: a single wrap-around then suffices for any shift sign / magnitude
+            auto normalize_roll_shift = [](nm_index_t shift, const auto axis) -> nm_index_t
+            {
+                auto n = (nm_index_t)axis;
+                return (n > 0) ? (shift % n) : shift;
+            };
+
             if constexpr (is_none_v<axis_t>) {
                 for (nm_size_t i=0; i<nm_size_t(dim); i++) {
                     auto shape_i = at(shape,i);
-                    auto index   = nm_index_t(at(indices,i)) - shift;
+                    auto index   = nm_index_t(at(indices,i)) - normalize_roll_shift(shift,shape_i);
                     at(result,i) = normalize_roll_index(index,shape_i);
                 }
             } else if constexpr (meta::is_index_v<axis_t>) {
@@ -143,7 +150,7 @@ namespace nmtools::index
                     at(result,i) = at(indices,i);
                 }
                 auto shape_i = at(shape,axis);
-                auto index   = nm_index_t(at(indices,axis)) - shift;
+                auto index   = nm_index_t(at(indices,axis)) - normalize_roll_shift(shift,shape_i);
                 at(result,axis) = normalize_roll_index(index,shape_i);
             } else /* if constexpr (meta::is_index_array_v<axis_t>) */ {
                 // fill with index first then adjust at axis
@@ -154,7 +161,7 @@ namespace nmtools::index
                 for (size_t i=0; i<len(axis); i++) {
                     auto axis_i  = at(axis,i);
                     auto shape_i = at(shape,axis_i);
-                    auto index   = nm_index_t(at(indices,axis_i)) - at(m_shift,i);
+                    auto index   = nm_index_t(at(indices,axis_i)) - normalize_roll_shift(at(m_shift,i),shape_i);
                     at(result,axis_i) = normalize_roll_index(index,shape_i);
                 }
             }
